@@ -4,14 +4,15 @@ import json
 import os
 import re
 
+from harness.lib import pytranslate
 from harness.lib import sx as SX
 
 ID = "C16"
 COQ_DIR = "C16"
 RUN_MOD = "C16.Run"
 MODEL_TARGETS = ["C16/Run.vo"]
-PROOF_TARGETS = ["C16/Lemmas.vo"]
-PROPS = ["C16/Props.v"]
+PROOF_TARGETS = ["C16/Lemmas.vo", "C16/TransEq.vo"]
+PROPS = ["C16/Props.v", "C16/PropsTranslated.v"]
 ALLOWED_AXIOMS = []
 IMPL_TIMEOUT = 30.0
 COQ_SHARD = 25
@@ -46,6 +47,14 @@ TRUSTED_BASE = [
     "with block), the header keys, the id format pieces and the 'derived connections share conn_impl' check are read from ak/conn_http.py by "
     "harness/props/c16.py:gen_consts (ast, fail-closed)",
     "str.format('{:0N}') of a non-negative int is its decimal representation left-padded with zeros to N characters (model: pad/dec)",
+    "for the *_translated theorems: the shared translator harness/lib/pytranslate.py (Python ast -> Gallina, fail closed, NOT verified; "
+    "`python -m harness.lib.pytranslate --selftest` compares ~4000 calls of 19 translated functions with CPython, incl. the format "
+    "specs) and coq/Common/PyLib.v (py_format_int = [[fill]align][0][width] with sign-aware '=' padding, py_str_of_nat, py_mod = "
+    "floor modulo); subset used here: conditional expression, `is None` on an Optional[int] (case split), %, str.format with "
+    "auto-numbered {} / {:0N} fields on str and int, str literals; the hook c16._translate_id_format hands the translator the "
+    "value of the single `return` of _generate_request_id and declares self._reqid_connection_part : str and the one local it "
+    "mentions : Optional[int] (None = ids switched off); that this local holds the counter value read under the lock is what "
+    "impl_prog / well_locked establish, not the translator",
 ]
 ASSUMPTIONS = [
     "the counter starts at a non-negative value (0 in the code) and only the code of ak/conn_http.py touches _cur_req_id and the lock",
@@ -326,8 +335,61 @@ def _check_sharing(tree):
                     raise ExtractError(f"class {cls.name} rebinds conn_impl")
 
 
+def _translate_id_format(src, gen_fn):
+    """the id-format expression of _generate_request_id (the value of its `return`), translated to Gallina by the shared
+    translator harness/lib/pytranslate.py as a function of self._reqid_connection_part : str and of the local that holds the
+    counter value : Optional[int] -> coq/gen/C16_Translated.v (T_request_id_format); coq/C16/TransEq.v proves it equal to
+    the hand model's fmt and id_injective for it.  Fail closed: pytranslate.Unsupported outside the subset."""
+    cfg = pytranslate.Config(source_name=SRC)
+    rets = [n for n in ast.walk(gen_fn) if isinstance(n, ast.Return)]
+    if len(rets) != 1 or rets[0].value is None:
+        raise pytranslate.Unsupported(GEN + ": not exactly one return <expression>")
+    e = rets[0].value
+    names = sorted({n.id for n in ast.walk(e) if isinstance(n, ast.Name)} - {"self"})
+    if len(names) != 1:
+        raise pytranslate.Unsupported(GEN + ": the returned expression does not use exactly one local variable")
+    tr = pytranslate.Translator(src, cfg)
+    rt = tr.add_expression("request_id_format", e, [("self." + CONN_PART, "a_conn_part", "str"), (names[0], None, ("opt", "int"))],
+                           cls="_HttpConnImpl", selfname="self")
+    if rt != "dyn":
+        raise pytranslate.Unsupported(GEN + f": the returned expression has type {rt}, None-or-str expected")
+    return tr.emit("id format of " + GEN)
+
+
+def _translation_stub(reason):
+    return pytranslate.stub(pytranslate.Config(source_name=SRC), reason,
+                            [("T_request_id_format", "(a_conn_part : list Z) (v : option Z) : res pyval")])
+
+
 def gen_consts(repo):
+    """constants + program (ast extractor below) + translation of the id format (harness/lib/pytranslate.py).  The translation
+    of THIS source (or the stub saying why there is none) is written even when the extractor refuses the source, so that
+    coq/C16/TransEq.v is checked against the current text in every case; any refusal is raised (= proof step broken)."""
     src = open(os.path.join(repo, SRC)).read()
+    try:
+        tree0 = ast.parse(src)
+        translated, terr = _translate_id_format(src, _find_method(_find_class(tree0, "_HttpConnImpl"), GEN)), None
+    except pytranslate.Unsupported as e:
+        translated, terr = _translation_stub(str(e)), e
+    except (ExtractError, SyntaxError) as e:
+        translated, terr = _translation_stub(str(e)), None     # the extractor below reports it
+    from harness.lib import coqrun
+    try:
+        gens = _gen_consts_only(src)
+    except Exception:
+        with coqrun.Lock():
+            coqrun.write_gen("C16_Translated", translated)
+        raise
+    gens["C16_Translated"] = translated
+    if terr is not None:
+        with coqrun.Lock():
+            for name, text in gens.items():
+                coqrun.write_gen(name, text)
+        raise ExtractError(f"translator (harness/lib/pytranslate.py): {terr}")
+    return gens
+
+
+def _gen_consts_only(src):
     tree = ast.parse(src)
     impl = _find_class(tree, "_HttpConnImpl")
     init = _find_method(impl, "__init__")
@@ -892,7 +954,14 @@ TECHNIQUE = ("Coq proof: an invariant of a small-step machine (shared lock + cou
              "opcode-level scheduler (sys.settrace + f_trace_opcodes, lock replaced by a non-blocking proxy); the logged order of shared "
              "accesses is the model's schedule and the model must reproduce every access kind, every X-request-id seen by the opener "
              "and the final counter.  Independent oracle on the observed headers: distinct ids, numbers c0..c0+n-1, caller ids unchanged.")
-LEVEL_TEXT = ("Full at model level, for ALL schedules / thread counts / request mixes / start values (32 closed statements, no axioms): "
+LEVEL_TEXT = ("Full at model level, for ALL schedules / thread counts / request mixes / start values (37 closed statements, no axioms; 5 of "
+              "them -- translated_format_eq, translated_format_none, id_injective_translated, ids_pairwise_distinct_translated and an "
+              "example, coq/C16/PropsTranslated.v -- speak about T_request_id_format, the id-format expression of "
+              "_generate_request_id translated from the CURRENT source by harness/lib/pytranslate.py as a function of "
+              "self._reqid_connection_part : str and the counter value read : Optional[int]: it equals `fmt cp n` for every n >= 0 and "
+              "None for None, hence is injective in n and gives pairwise distinct ids in every interleaving; str.format / '{:04}' / "
+              "'{:012}' / % there have the meaning written down in coq/Common/PyLib.v (py_format_int, py_mod), no longer the model's "
+              "own reading of the extracted widths; a source outside the translator's subset is a broken proof step): "
               "unique_gapfree (+ _every_prefix, + _any_program for every program passing well_locked): in every state of every "
               "interleaving the numbers sent are pairwise distinct and, with those of threads between lock release and send, are exactly "
               "c0..c0+k-1, the counter being c0+k whenever the lock is free (no repeat, no gap, no lost update); gapfree_at_rest (k = number "
@@ -917,7 +986,8 @@ LEVEL_TEXT = ("Full at model level, for ALL schedules / thread counts / request 
               "in /repo by 2323115; the model follows the fixed code (other_spelling_passed_on), the oracle enforces the signature "
               "strictly, regression cases in corpus/C16/regression_respelled.json.  Header names are ASCII (str.lower/capitalize modelled "
               "on ASCII).  Uniqueness is claimed for generated ids only (a caller may supply the same id twice).")
-LEVEL_NOTE = ("Trusted: Coq kernel + vm_compute; CPython's thread model (one thread runs at a time, switches at bytecode boundaries; "
+LEVEL_NOTE = ("Trusted: Coq kernel + vm_compute; for the translated id format the translator harness/lib/pytranslate.py + coq/Common/PyLib.v "
+              "(self-tested against CPython, not verified) instead of the hand model's pad/dec; CPython's thread model (one thread runs at a time, switches at bytecode boundaries; "
               "Lock.acquire on a held lock blocks; `with` releases); the ast extractor that turns _generate_request_id / do_request into "
               "impl_prog and constants (fail closed: any unrecognised statement, further use of the counter/lock/generator anywhere in "
               "the module, rebinding of conn_impl or headers breaks the proof step); the scheduler harness incl. the LockProxy "
